@@ -24,7 +24,7 @@ var R = hx.NewRecorder("C12", "cases = (key, IV of length 1..64, AAD, plaintext,
 	"non-trivial = plaintext or AAD non-empty; distinct by hash of (key,iv,aad,pt)")
 
 func TestMain(m *testing.M) {
-	R.Require("iv!=12", "iv==12", "iv_ff", "ctr_wrap", "pt%16!=0", "pt==0", "aad>16", "tightcap", "bitflip_iv", "bitflip_aad", "bitflip_ct", "bitflip_tag")
+	R.Require("len>4KiB", "iv!=12", "iv==12", "iv_ff", "ctr_wrap", "pt%16!=0", "pt==0", "aad>16", "tightcap", "bitflip_iv", "bitflip_aad", "bitflip_ct", "bitflip_tag")
 	hx.Main(m, R)
 }
 
@@ -196,6 +196,23 @@ func TestC12_Random(t *testing.T) {
 	maxLen := 1024
 	if hx.Thorough() {
 		maxLen = 65536
+	}
+	// lengths around internal batching boundaries (4 KiB, 8 KiB, 16 KiB = one TLS record, 64 KiB), in both tiers
+	for i, n := range []int{4080, 4096, 4097, 4112, 8192, 8193, 16384, 16400, 65536, 65537} {
+		for _, ivl := range []int{12, 16} {
+			c := gcase{key: make([]byte, 16), iv: make([]byte, ivl), aad: make([]byte, 13+i), pt: make([]byte, n), tight: i%2 == 0}
+			gen.Fill(c.key, uint64(n))
+			gen.Fill(c.iv, uint64(n+1))
+			gen.Fill(c.aad, uint64(n+2))
+			gen.Fill(c.pt, uint64(n+3))
+			run(t, c)
+			if i < 4 {
+				// the additional data at those sizes too
+				c.aad, c.pt = c.pt, c.aad
+				run(t, c)
+			}
+			R.Case(true, hx.HashKey("gcmbig", n, ivl), "len>4KiB")
+		}
 	}
 	hx.Check(t, hx.N(1500, 12000), func(t *rapid.T) {
 		c := gcase{key: gen.BytesN(16).Draw(t, "key")}
